@@ -1,4 +1,127 @@
-/-! Sat: executable models (no Mathlib imports). -/
+import Solvor.Gen.Kernels
+/-!
+Sat: executable models and Boolean checkers (no Mathlib imports).
+
+* semantics of CNF formulas over `Int` literals (`litTrue`, `clauseTrue`, `cnfTrue`);
+* `evalCnf` / `pairwiseDistinct` – the verified checkers the driver evaluates on every
+  assignment `solve_sat` returns (C01);
+* `solve` – reference DPLL (shortest-clause branching, so unit clauses propagate first),
+  `enumModels` – all models projected to a list of variables (C01/C02/C06 oracle);
+* `blocking`, `resolve`, `chain` – blocking clauses and the 1-UIP resolution chain;
+* `luby` – the regenerated `luby()` loop of `solvor/sat.py` with the fuel `2*i+2`.
+-/
 namespace Solvor.Sat
+
+abbrev Clause := List Int
+abbrev Cnf := List Clause
+/-- total assignments (semantic side) -/
+abbrev Asg := Nat → Bool
+/-- an assignment as `solve_sat` returns it: `dict[int,bool]` as its item list -/
+abbrev AList := List (Nat × Bool)
+
+/-! ### semantics -/
+
+def litTrue (σ : Asg) (l : Int) : Bool := if 0 < l then σ l.natAbs else !σ l.natAbs
+def clauseTrue (σ : Asg) (c : Clause) : Bool := c.any (litTrue σ)
+def cnfTrue (σ : Asg) (f : Cnf) : Bool := f.all (clauseTrue σ)
+
+/-- `σ` satisfies every clause of `f` and every assumption literal of `as`. -/
+def Models (σ : Asg) (f : Cnf) (as : List Int) : Prop :=
+  (∀ c ∈ f, ∃ l ∈ c, litTrue σ l = true) ∧ ∀ a ∈ as, litTrue σ a = true
+
+/-- literals are non-zero (what `solve_sat` assumes of its input) -/
+def WF (f : Cnf) : Prop := ∀ c ∈ f, ∀ l ∈ c, l ≠ 0
+
+def wfB (f : Cnf) : Bool := f.all fun c => c.all fun l => l != 0
+
+/-- assumptions are unit clauses -/
+def withAssumptions (f : Cnf) (as : List Int) : Cnf := as.map (fun a => [a]) ++ f
+
+/-! ### checkers for returned assignments -/
+
+/-- the literal's variable is assigned, with the literal's sign -/
+def litHolds (m : AList) (l : Int) : Bool := m.lookup l.natAbs == some (decide (0 < l))
+
+/-- every variable occurring in `f` or `as` has an entry in `m` -/
+def totalOn (m : AList) (f : Cnf) (as : List Int) : Bool :=
+  f.all (fun c => c.all fun l => (m.lookup l.natAbs).isSome) && as.all fun a => (m.lookup a.natAbs).isSome
+
+/-- C01 checker: `m` is total on the occurring variables, makes a literal of every clause true and
+agrees with every assumption literal. -/
+def evalCnf (f : Cnf) (as : List Int) (m : AList) : Bool :=
+  totalOn m f as && f.all (fun c => c.any (litHolds m)) && as.all (litHolds m)
+
+/-- the total assignment read off an item list (unassigned ↦ false) -/
+def asgOf (m : AList) : Asg := fun v => (m.lookup v).getD false
+
+/-- two item lists differ on some key of either -/
+def differ (a b : AList) : Bool :=
+  (a.map Prod.fst ++ b.map Prod.fst).any fun v => a.lookup v != b.lookup v
+
+/-- C01 checker: the returned assignments are pairwise different. -/
+def pairwiseDistinct : List AList → Bool
+  | [] => true
+  | a :: rest => rest.all (differ a) && pairwiseDistinct rest
+
+/-! ### reference DPLL -/
+
+/-- make literal `l` true: drop satisfied clauses, delete `-l` elsewhere -/
+def assign (l : Int) (f : Cnf) : Cnf :=
+  (f.filter fun c => !c.contains l).map fun c => c.filter (· != -l)
+
+def size (f : Cnf) : Nat := (f.map List.length).sum
+
+/-- a shortest clause (the first among equals) -/
+def pick : Cnf → Option Clause
+  | [] => none
+  | c :: f =>
+    match pick f with
+    | none => some c
+    | some d => if c.length ≤ d.length then some c else some d
+
+def dpll : Nat → Cnf → Bool
+  | 0, _ => false
+  | fuel + 1, f =>
+    match pick f with
+    | none => true
+    | some [] => false
+    | some (l :: _) => dpll fuel (assign l f) || dpll fuel (assign (-l) f)
+
+/-- fuel = literals + clauses + 1 (proved sufficient in `Lemmas.dpll_correct`) -/
+def solve (f : Cnf) : Bool := dpll (size f + f.length + 1) f
+
+/-- all models of `f`, projected to the variables `vs` (in that order), each exactly once -/
+def enumModels : List Nat → Cnf → List AList
+  | [], f => if solve f then [[]] else []
+  | v :: vs, f =>
+    if solve f then
+      (enumModels vs (assign (v : Int) f)).map ((v, true) :: ·) ++
+        (enumModels vs (assign (-(v : Int)) f)).map ((v, false) :: ·)
+    else []
+
+/-- number of variables `solve_sat` works with: the largest variable index -/
+def nVars (f : Cnf) (as : List Int) : Nat :=
+  (f.foldl (fun n c => c.foldl (fun n l => max n l.natAbs) n) 0) |> fun n => as.foldl (fun n l => max n l.natAbs) n
+
+/-! ### blocking clauses and resolution -/
+
+/-- the clause excluding `σ` on the variables `vs` (what `solve_sat` adds after each model) -/
+def blocking (σ : Asg) (vs : List Nat) : Clause := vs.map fun v => if σ v then -(v : Int) else (v : Int)
+
+/-- resolvent of `c` (containing `p`) and `d` (containing `-p`) -/
+def resolve (c d : Clause) (p : Int) : Clause := c.filter (· != p) ++ d.filter (· != -p)
+
+/-- the 1-UIP chain: starting from the conflict clause, resolve with the antecedent `r` of the
+pivot `p` (`p ∈ r`, `-p` in the running clause), one step per expanded trail literal -/
+def chain (c0 : Clause) (steps : List (Clause × Int)) : Clause :=
+  steps.foldl (fun c s => resolve s.1 c s.2) c0
+
+/-- `c` is a consequence of `f` -/
+def Entails (f : Cnf) (c : Clause) : Prop := ∀ σ, cnfTrue σ f = true → clauseTrue σ c = true
+
+/-! ### Luby -/
+
+/-- `luby(i)` of `solvor/sat.py`: the regenerated loop with fuel `2*i+2` -/
+def luby (i : Nat) : Nat := Solvor.Gen.lubyLoop (2 * i + 2) i Solvor.Gen.lubyK0
 
 end Solvor.Sat
